@@ -377,7 +377,8 @@ def gen_masked(rng, c):
     v = {"case": c, "trk": trk, "lin_missing": mask(0.3) if rng.random() < 0.6 else None,
          "trk_missing": mask(0.3) if rng.random() < 0.7 else None}
     if rng.random() < 0.03:   # a mask of the wrong length: numpy's IndexError (model: DataOutcome.indexError)
-        v["lin_missing"] = [rng.random() < 0.3 for _ in range(n + rng.choice([-1, 1, 2]))] if n else [True]
+        # (a mask of length 0 is the exception: numpy accepts it against any length and selects nothing)
+        v["lin_missing"] = [rng.random() < 0.3 for _ in range(n + rng.choice([-1, 1, 2, -n]))] if n else [True]
     return v
 
 
